@@ -209,7 +209,7 @@ fn main() {
                 std::fs::write(format!("{dir}/cases.json"), j).unwrap();
                 std::process::exit(0);
             } else {
-                let s = props::sweep(prop, thorough, seed);
+                let s = if tier == "history" { props::history(prop, seed) } else { props::sweep(prop, thorough, seed) };
                 std::fs::write(format!("{dir}/sweep.json"), s.to_json()).unwrap();
                 // a helper thread may still be stuck in a non-terminating loop: leave without joining it
                 std::process::exit(0);
